@@ -408,8 +408,9 @@ class AuthGen(srvlib.HistGen):
         elif kind == 'badlogin_then_use':
             self.version(A, nul_hash=(r.randrange(2) == 0))
             self.tick()
-            # near misses: one byte off at either end or in the middle, all zeros, equal up to a NUL byte
-            for m in r.sample(['first', 'last', 'zeros', 'after-nul', str(r.randrange(1, 15))], 3):
+            # near misses: one byte off at either end or in the middle, all zeros, equal up to a NUL byte; a wrong hash in a
+            # message of 17 / 18 decoded bytes (userid + 16 bytes without / with half of the cache-miss counter)
+            for m in r.sample(['first', 'last', 'zeros', 'after-nul', str(r.randrange(1, 15)), 'len17', 'len18'], 4):
                 self.login(A, good=False, mode=m)
                 self.upstream_packet(A, dst_ip=outside)
                 self.ping(A)
@@ -597,9 +598,11 @@ def truncate_history(line, upto):
     return ' ; '.join(parts[:upto + 2])
 
 
-def run_check(rep, prop, monitor, targeted_scenarios, tags):
+def run_check(rep, prop, monitor, targeted_scenarios, tags, extra_harnesses=None, extra_stage=None):
     """the common body of checks/c03.py and checks/c04.py"""
-    ctx = vlib.prepare(rep, harnesses={'srv': srvlib.SRV}, sanitize=(rep.tier == 'thorough'), model='SRV')
+    hs = {'srv': srvlib.SRV}
+    hs.update(extra_harnesses or {})
+    ctx = vlib.prepare(rep, harnesses=hs, sanitize=(rep.tier == 'thorough'), model='SRV')
     quick = rep.tier == 'quick'
     corpus = corpus_lines(prop, 'SRV')
     n_gen, ev_gen = (200, 90) if quick else (1200, 150)
@@ -670,6 +673,8 @@ def run_check(rep, prop, monitor, targeted_scenarios, tags):
                 idx = next((i for i, l in enumerate(sl) if l == '<NO-OUTPUT>'), None)
                 rep.add_violation('sanitizer', 'ASan/UBSan report: ' + err[-400:],
                                   dict(kind='input', driver='srv.san', case=sub2[idx] if idx is not None else None, observed=err[-2000:]))
+    if extra_stage is not None:
+        extra_stage(rep, ctx)
     if not rep.violations:
         ctx.report_broken()
     return rep
